@@ -515,6 +515,13 @@ def ufunc_specs(tier, rng):
     return specs
 
 
+# the unit rules the shared dispatcher model knows (`Ufunc.Rule.ofName`); a rule function added to unyt
+# later (e.g. `_floor_divide_units`) is exercised by the direct oracle only until that model follows
+MODELLED_RULES = {"_preserve_units", "_difference_units", "_multiply_units", "_divide_units", "_return_without_unit",
+                  "_passthrough_unit", "_power_unit", "_sqrt_unit", "_cbrt_unit", "_square_unit", "_reciprocal_unit",
+                  "_arctan2_unit", "_comparison_unit", "_invert_units", "_bitop_units"}
+
+
 def ufunc_wire(E, sp):
     """model line for an in-place ufunc spec: operands described BEFORE the call"""
     import c01
@@ -523,13 +530,13 @@ def ufunc_wire(E, sp):
     tgt = U.target_of(sp)
     if tgt is None or (sp.get("kwargs") and "bogus" in sp["kwargs"]):
         return None
+    if sp["rule"] not in MODELLED_RULES:
+        return "skip:rule-not-in-shared-dispatcher-model"
     if sp["fault"] == "bad-shape" and (sp.get("b") or {}).get("unit") == "s":
         return None         # double fault: the `==`/`!=` early return then fails in `out[:] = ret[:]` (not modelled)
     uf, a, b, o = U.build(sp)
     out = a if tgt == "a" else o
     outobj = out.obj
-    if (sp["a"].get("ro") or sp.get("out_ro")) and outobj.dtype.kind in "iu":
-        return None         # the failing np.copyto of the re-typing is not in the dispatcher model
     try:
         ins = c01.operand_wire(E, a.obj) + (c01.operand_wire(E, b.obj) if b is not None else [])
         ow = c01.out_wire(E, outobj)
@@ -552,7 +559,7 @@ def ufunc_wire(E, sp):
     ou = ["U"] + E.unit_wire(outobj.units) if isinstance(outobj, unyt.unyt_array) else ["N"]
     od = f"{','.join(str(d) for d in outobj.shape)};{outobj.dtype.kind if outobj.dtype.kind in 'fiucb' else 'o'};{outobj.dtype.itemsize}"
     return "\t".join(["c18.iufunc", "40"] + ou + ["f", str(max(outobj.dtype.itemsize, 1))] + [sp["ufunc"], "__call__", str(sp["nin"])]
-                     + ins + ow + ["-", ke, ksh, od])
+                     + ins + ow + ["-", ke, ksh, od, "1" if outobj.flags.writeable else "0"])
 
 
 def compare_ufunc(chk, sp, obs, rep):
@@ -569,7 +576,7 @@ def compare_ufunc(chk, sp, obs, rep):
         chk.disagree("c18.iufunc.outcome", f"{tag}: model {m_exc} vs unyt {o_exc} ({obs['msg'][:70]})", sp)
         return
     d = set(obs["delta"][tgt])
-    m_written = any(e in ("K", "M") for e in effs)
+    m_written = any(e in ("K", "M") for e in effs) or rep[7] == "0"
     m_retyped = any(e.startswith("R") for e in effs)
     if "numbers" in d and not (m_written or m_retyped):
         chk.disagree("c18.iufunc.numbers", f"{tag}: out numbers changed, model effects {effs}", sp)
@@ -613,7 +620,9 @@ def run_ufuncs(chk, M, tier):
         for key, what in U.judge(sp, obs, sp["rule"]):
             chk.fail(key, what, {"python": U.replay_snippet(sp, key, sp["rule"], HARNESS), "spec": sp,
                                  "observed": {"raised": obs["exc"], "changed": obs["delta"]}})
-        if w is not None:
+        if isinstance(w, str) and w.startswith("skip:"):
+            chk.count("ufunc:" + w[5:])
+        elif w is not None:
             lines.append(w)
             idx.append(len(results) - 1)
     reps = M.ask(lines)
@@ -660,43 +669,45 @@ def run_catalogue(chk, tier, seed):
 # E. the witnesses of the `_counterexample` theorems, replayed on the real code on every run
 
 WITNESSES = [
-    # (theorem, section, spec, the oracle key the witness must produce)
-    ("convert_to_units_counterexample", "conv",
+    # (theorem, section, spec, the oracle key the witness must produce — None: the call must produce NO finding —,
+    #  must the call return?)
+    # open findings (fix patches C18-01 / C18-03 prepared): the calls raise and leave the array changed
+    ("failed_convert_to_units_has_no_effects / convert_to_units_unpatched_violates", "conv",
      dict(route="convert_to_units", unit="km", target="m", dtype="int8", shape="1d", ro=False, fault="valid"),
-     "inplace|convert_to_units|narrow-int-dtype|int8|raised-ValueError|unit"),
-    ("convert_to_units_late_faults", "conv",
+     "inplace|convert_to_units|narrow-int-dtype|int8|raised-ValueError|unit", False),
+    ("failed_convert_to_units_has_no_effects / convert_to_units_unpatched_late_faults", "conv",
      dict(route="convert_to_units", unit="km", target="m", dtype="bool", shape="1d", ro=False, fault="valid"),
-     "inplace|convert_to_units|bool-dtype|bool|raised-TypeError|unit"),
-    ("convert_to_units_late_faults", "conv",
+     "inplace|convert_to_units|bool-dtype|bool|raised-TypeError|unit", False),
+    ("failed_convert_to_units_has_no_effects / convert_to_units_unpatched_late_faults", "conv",
      dict(route="convert_to_units", unit="km", target="m", dtype="float64", shape="1d", ro=True, fault="readonly"),
-     "inplace|convert_to_units|readonly|float|raised-ValueError|unit"),
-    ("convert_to_units_late_faults", "conv",
+     "inplace|convert_to_units|readonly|float|raised-ValueError|unit", False),
+    ("failed_convert_to_units_has_no_effects / convert_to_units_unpatched_late_faults", "conv",
      dict(route="convert_to_units", unit="km", target="m", dtype="int64", shape="1d", ro=True, fault="readonly"),
-     "inplace|convert_to_units|readonly|int|raised-ValueError|dtype+numbers+unit"),
-    ("simplify_counterexample", "conv",
+     "inplace|convert_to_units|readonly|int|raised-ValueError|dtype+numbers+unit", False),
+    # open finding (fix patch C18-02 prepared)
+    ("simplify_copy_has_no_effects / simplify_unpatched_mutates", "conv",
      dict(route="units.simplify", unit="cm/m", target="m", dtype="float64", shape="1d", ro=False, fault="valid"),
-     "documented-copying|Unit.simplify|mutates-self"),
-    # fixed by db741b8 (post-multiplication on the raw buffer): must produce NO finding any more
+     "documented-copying|Unit.simplify|mutates-self", True),
+    # fixed by db741b8 (post-multiplication on the raw buffer)
     ("convert_to_equivalent_raw_returns", "conv",
      dict(route="convert_to_equivalent", unit="K*cm/angstrom", target="J", equivalence="thermal", kwargs={}, dtype="float64",
-          shape="1d", ro=False, fault="reducible-unit"),
-     None),
+          shape="1d", ro=False, fault="reducible-unit"), None, True),
+    ("raw_rescale_returns", "ufunc",
+     dict(ufunc="multiply", form="iop", a=_un("cm/m"), b=dict(kind="pyscalar", dtype="float64"), fault="reducible-unit",
+          rule="_multiply_units", nin=2), None, True),
+    # still open
     ("offset_multiply_counterexample", "ufunc",
      dict(ufunc="multiply", form="iop", a=_un("degC"), b=dict(kind="pyscalar", dtype="float64"), fault="offset-operand",
           rule="_multiply_units", nin=2),
-     "ufunc|_multiply_units|out=|offset-operand|raised-InvalidUnitOperation|numbers"),
+     "ufunc|_multiply_units|out=|offset-operand|raised-InvalidUnitOperation|numbers", False),
     ("int_out_retyped_counterexample", "ufunc",
      dict(ufunc="add", form="out-self", a=_un("m", "int64"), b=_un("s", "int64"), fault="incommensurable", rule="_preserve_units", nin=2),
-     "ufunc|out=|int-retyped-on-failure"),
-    ("raw_rescale_returns", "ufunc",
-     dict(ufunc="multiply", form="iop", a=_un("cm/m"), b=dict(kind="pyscalar", dtype="float64"), fault="reducible-unit",
-          rule="_multiply_units", nin=2),
-     None),
+     "ufunc|out=|int-retyped-on-failure", False),
 ]
 
 
 def run_witnesses(chk):
-    for thm, sec, sp, key in WITNESSES:
+    for thm, sec, sp, key, must_return in WITNESSES:
         chk.case(("witness", thm, key))
         if sec == "conv":
             obs = V.run_case(sp)
@@ -708,9 +719,10 @@ def run_witnesses(chk):
         for k, what in found:
             sn = (V.replay_snippet(sp, k, HARNESS) if sec == "conv" else U.replay_snippet(sp, k, sp["rule"], HARNESS))
             chk.fail(k, what, {"python": sn, "spec": sp, "theorem": thm})
+        if must_return and obs["exc"] is not None:
+            chk.disagree("witness", f"theorem {thm} says the call returns; on the real code it raises {obs['exc']}")
         if key is None:
-            if obs["exc"] is not None:
-                chk.disagree("witness", f"theorem {thm} says the call returns; on the real code it raises {obs['exc']}")
+            pass        # any finding was reported by chk.fail above
         elif key not in keys:
             chk.disagree("witness", f"the witness of theorem {thm} no longer fails on the real code (expected {key}, got {keys}; raised {obs['exc']})")
 
